@@ -182,8 +182,8 @@ def decimal_laws(fs, op, out, dflt, sibling):
             if w.mantissa != s.mantissa:
                 if not (w.frac is None and w.int == s.int and s.frac is not None and set(s.frac) == {ord("0")}):
                     return "trim_floats removed something else than a zero fraction: %r -> %r" % (s.mantissa, w.mantissa)
-            elif s.frac == b"0" and not (sci and "no_exponent_without_fraction" in flags):
-                return "trim_floats did not remove the '.0'"
+            elif s.frac is not None and set(s.frac) == {ord("0")} and not (sci and "no_exponent_without_fraction" in flags):
+                return "trim_floats did not remove the zero fraction '.%s'" % s.frac.decode()
     return None
 
 
